@@ -733,10 +733,25 @@ ChildRead(h, n) ==
   /\ hist' = Append(hist, EnvRec("cread", h, [n |-> n, got |-> n]))
   /\ UNCHANGED <<life, stv, opt, pend, ch, now, fr, ncalls>>
 
+\* Every exported behaviour ends with a probe: a zero-timeout poll for everything on every started handle.  The poll
+\* changes nothing and its answer is a function of the state, so the code's state is compared with the model's also
+\* after calls whose contract is "nothing changes" - where the one-history-per-state exploration continues from some
+\* OTHER history and would never look at this one again.  exp = the admissible <<r, ev..., 0, 0>> (no descriptor, no allocation kept).
+ProbeRec(s) ==
+  LET hs == {h \in Handles : s.life[h] \in {"run", "exited"}}
+      RECURSIVE Lst(_)
+      Lst(S) == IF S = {} THEN <<>> ELSE LET m == MinOf(S) IN <<<<m, EV_IN + EV_OUT + EV_ERR + EV_EXIT>>>> \o Lst(S \ {m})
+      srcs == Lst(hs)
+      d == RunPoll([s EXCEPT !.fr = [NoFrame EXCEPT !.fn = "poll", !.pc = "look", !.a = <<srcs, 0>>, !.t0 = now]])
+      alts == IF d.fr.r # 0 THEN {<<d.fr.r>> \o [k \in 1..Len(srcs) |-> 0]} ELSE d.fr.x
+  IN [e |-> "probe", src |-> srcs, exp |-> SetToSeq({a \o <<0, 0>> : a \in alts})]
+
 \* export the behaviour that ends with this call-completing transition (ACTION_CONSTRAINT of the MC_* models)
 ExportRet ==
   (Len(hist') > Len(hist) /\ hist'[Len(hist')].e = "ret" /\ (ExportStride = 1 \/ TLCFP(hist') % ExportStride = ExportOffset))
-    => PrintT(<<"BEH", ToJson(hist')>>)
+    => LET b == Bundle' IN
+       PrintT(<<"BEH", ToJson(IF fr'.fn = "none" /\ \E h \in Handles : b.life[h] \in {"run", "exited"}
+                                THEN Append(hist', ProbeRec(b)) ELSE hist')>>)
 
 (* ======================= properties checked on the model ======================= *)
 LastRet == IF hist # <<>> /\ hist[Len(hist)].e = "ret" THEN hist[Len(hist)] ELSE [e |-> "none"]
